@@ -368,6 +368,7 @@ def _commutes_rules(ctx, repo):
     _phase_by_rules(ctx, repo)
     _phased_xz_canonical(ctx, repo)
     _mutable_equality_cache(ctx, repo)
+    _qudit_shortcuts(ctx, repo)
     ctx.decided.append('C08.i no statement discards the result of a value-semantics method (inverse / then / with_* / replace ...): `t.inverse()` without rebinding is a no-op')
     shared.discarded_value_rule(ctx, 'C08.i')
     ctx.decided.append('C08.j predicates and builders write the private fields of another object only when that object was created in the same function (EigenGate._equal_up_to_global_phase_ zeroes _global_shift on the result of _with_exponent, which therefore must never be self)')
@@ -658,3 +659,54 @@ def _mutable_equality_cache(ctx, repo):
                f'{"cirq.approx_eq" if "_approximate_" in miss[0] else "=="} still compares the old values', ci.mod.rel, ci.node.lineno)
     if n == 0:
         raise AnalysisError('C08.m: no unhashable value-equality class below a hashable one found')
+
+
+QUDIT_EXEMPT = {
+    ('cirq.ops.common_gates.XPowGate', 'in_su2'): 'SU(2) is a qubit notion by definition (documented as such)',
+    ('cirq.ops.common_gates.ZPowGate', 'in_su2'): 'SU(2) is a qubit notion by definition (documented as such)',
+}
+
+
+def _qudit_shortcuts(ctx, repo):
+    """C08.n - a qudit-capable gate does not hand out a qubit-only gate for itself without looking at its dimension."""
+    ctx.decided.append('C08.n methods of gate classes with a `dimension` parameter that return a gate of a qubit-only class (phase_by, controlled, ...) test self._dimension first, or give '
+                       'the helper the gate itself; otherwise a qutrit X would be replaced by a qubit gate')
+    ctx.rule('C08.n', 'dimension-aware shortcuts: in every class whose __init__ takes `dimension`, a method that returns something built by a repository gate class without a dimension / '
+             'qid_shape parameter, or by a private module helper, either reads self._dimension / self.dimension or passes self to that helper (tabled exceptions: in_su2)', floor=4, style='COH')
+    n = 0
+    for ci in sorted(repo.classes.values(), key=lambda c: c.qual):
+        if '.testing.' in ci.qual or '.contrib.' in ci.qual or ci.mod.rel.endswith('_test.py'):
+            continue
+        init = ci.methods.get('__init__')
+        if init is None or 'dimension' not in [a.arg for a in init.args.args + init.args.kwonlyargs]:
+            continue
+        for fn in ci.methods.values():
+            if fn.name.startswith('__') and fn.name != '__pow__':
+                continue
+            built = []
+            for r in ast.walk(fn):
+                if not (isinstance(r, ast.Return) and r.value is not None):
+                    continue
+                for c in ast.walk(r.value):
+                    if not isinstance(c, ast.Call):
+                        continue
+                    nm = call_name(c) or ''
+                    t = repo.resolve_in_func(ci.mod, fn, nm) if nm else None
+                    passes_self = any(isinstance(a, ast.Name) and a.id == 'self' for a in c.args)
+                    if t is not None and hasattr(t, 'methods') and hasattr(t, 'qual'):
+                        ti = t.methods.get('__init__')
+                        params = [a.arg for a in ti.args.args + ti.args.kwonlyargs] if ti else []
+                        if 'dimension' not in params and 'qid_shape' not in params and t.qual != ci.qual:
+                            built.append(t.name)
+                    elif t is not None and isinstance(getattr(t, 'node', None), ast.FunctionDef) and nm.startswith('_') and not passes_self:
+                        built.append(nm + '()')
+            if not built:
+                continue
+            n += 1
+            reads = any(isinstance(x, ast.Attribute) and x.attr in ('_dimension', 'dimension') and isinstance(x.value, ast.Name) and x.value.id == 'self' for x in ast.walk(fn))
+            ex = QUDIT_EXEMPT.get((ci.qual, fn.name))
+            ok = reads or ex is not None
+            ctx.ob('C08.n', f'{ci.qual}.{fn.name}:dimension-aware', ok, ('tabled: ' + ex) if ex and not reads else '' if ok else
+                   f'{ci.name}.{fn.name} returns {sorted(set(built))} - qubit gates - without looking at self._dimension: for dimension 3 the result acts on the wrong space', ci.mod.rel, fn.lineno)
+    if n == 0:
+        raise AnalysisError('C08.n: no qudit-capable class with a gate-building method found')
